@@ -2,23 +2,76 @@
    bytes round trip) and BOUNDED instances of it decided by computation through the real
    coder models (MQ.MqModel).  Nothing here is used by t1_lockstep. *)
 From V Require Import Common.Base T1.T1Store T1.T1Ctx T1.T1Model T1.T1Bytes T1.T1CtxProofs.
+Require V.MQ.MqModel V.MQ.MqProofs V.MQ.MqProofsRt.
 
 (* The T1 clause of C20 on the model of the code: the block decoder
    (DecodeLayeredWithMode(data, Rate values, maxBitplane, 0, style&4, style&2), default
    reconstruction) applied to the output of the block encoder (EncodeLayered, all 3*planes-2
    passes) returns the block.  fb = SetNMSEDecFractionalBits; coefficients are multiples of 2^fb
    with |v| <= 2^30.
-   Status: STATEMENT.  It follows from t1_lockstep / t1_ideal_roundtrip (proved, T1ProofsFinal)
-   once the byte transport is shown to be an ideal channel: the MQ decoder returns the decisions
-   of every terminated MQ segment (C20_mq_roundtrip with the three termination variants and
-   RestartInitEnc), the raw decoder returns the bits of every bypass segment, and the Rate values
-   delimit the segments.  Those transport facts belong to the mq area and are not proved here;
-   below the statement is decided by computation on bounded domains. *)
+   Status: PARTIAL.  Proved (T1ProofsCompThm / T1ProofsTermall, unbounded in block size,
+   orientation, coefficients, fb): every style without LAZY and PTERM - i.e. any combination of
+   RESET, TERMALL, VSC, SEGSYM (16 of the 64 combinations, the default style 0 among them) - and
+   additionally PTERM without LAZY / TERMALL when fb >= 1 (t1_bytes_roundtrip_partial).
+   Missing for the other styles are two facts about the coders of the mq area, stated below as
+   mq_erterm_segment_statement (a segment closed by ErtermEnc decodes to its decisions) and
+   raw_segment_statement (a bypass segment decodes to its bits), plus the segment bookkeeping of
+   the lazy mode built on them.  Below the full statement is decided by computation on bounded
+   domains for all 64 styles. *)
 Definition t1_roundtrip_statement : Prop :=
   forall (wn hn : nat) (orient style fb : Z) (data : list Z),
     length data = (wn * hn)%nat -> (forall v, In v data -> Z.abs v <= 2 ^ 30) -> 0 <= fb ->
     (forall v, In v data -> exists c, v = c * 2 ^ fb) ->
     t1_roundtrip wn hn orient style fb data = Ok data.
+
+(* ---------- the two coder facts the remaining styles need (NOT proved) ---------- *)
+(* PTERM on a terminated pass: the codeword closed by ErtermEnc (from fresh registers and
+   contexts cx) is decoded by a decoder started on it with the same contexts; the shape facts
+   are what the restart argument (T1ProofsRestart) and the Rate bookkeeping need. *)
+Definition mq_erterm_segment_statement : Prop :=
+  forall (cx : list Z) (l : list (Z * Z)),
+    Forall MqProofs.cx_ok cx -> Forall (MqProofsRt.decision_ok (zlen cx)) l ->
+    let en := MqModel.enc_encode_list (MqModel.enc_new_cx cx) l in
+    MqModel.enc_erterm_panics en = false /\
+    fst (MqModel.enc_erterm_loop 4 (11 - MqModel.e_ct en + 1) en) <= 0 /\
+    exists seg, rev (MqModel.e_pre (MqModel.enc_erterm en)) = 0 :: seg /\ seg <> [] /\ last seg 0 <> 255 /\
+      exists dd d', MqModel.dec_new_cx seg cx = Ok dd /\
+        MqModel.dec_decode_list dd (map snd l) = Ok (d', map fst l) /\
+        MqModel.d_cx d' = MqModel.e_cx en.
+
+(* LAZY: the bytes BypassInitEnc / BypassEncode* / BypassFlushEnc append to the buffer (the
+   flush may drop a trailing FF or FF 7F again) are read back bit for bit by the raw decoder
+   (whose sentinel supplies the dropped 1-bits) *)
+Definition raw_segment_statement : Prop :=
+  forall (e : MqModel.enc) (bits : list Z) (erterm : bool),
+    Forall (fun b => b = 0 \/ b = 1) bits -> hd 0 (MqModel.e_pre e) <> 255 ->
+    let e2 := MqModel.enc_bypass_flush (fold_left MqModel.enc_bypass_encode bits (MqModel.enc_bypass_init e)) erterm in
+    exists seg r', MqModel.e_pre e2 = rev seg ++ MqModel.e_pre e /\
+      MqModel.raw_decode_n (length bits) (MqModel.raw_new seg) = Ok (r', bits).
+
+(* ---------- truncation (NOT proved; statement only) ----------
+   Coding only the first np passes and decoding them with the reported Rate values gives what
+   the decoder model returns over the ideal channel, i.e. (t1_lockstep) every coefficient
+   truncated to the bit-planes coded for it.  Excluded: a pass count that ends on a
+   non-terminated bypass pass - there the encoder closes the bypass segment with the MQ Flush()
+   and the statement is FALSE as coded (1x2 block [16,0], style 0x01, 11 of 13 passes -> [16,-1];
+   reproduced by the model, outside C20). *)
+Definition raw_tail (style maxbp : Z) (pl : list (Z * Z)) : bool :=
+  let '(bp, pt) := last pl (0, 2) in
+  is_lazy_raw bp maxbp pt style && negb (is_terminating bp maxbp pt style).
+
+Definition t1_truncation_statement : Prop :=
+  forall (wn hn : nat) (orient style fb np : Z) (data : list Z),
+    length data = (wn * hn)%nat -> (forall v, In v data -> Z.abs v <= 2 ^ 30) -> 0 <= fb -> 1 <= np ->
+    let maxbp := find_max_bitplane data in
+    fb <= maxbp -> raw_tail style maxbp (pass_list maxbp fb np) = false ->
+    obind (enc_layered wn hn orient style fb np data) (fun r =>
+      let '((mb, ps), bytes) := r in
+      dec_layered wn hn orient style mb false
+                  (negb (Z.land style CblkStyleTermAll =? 0)) (negb (Z.land style CblkStyleReset =? 0))
+                  bytes (map p_rate ps))
+    = obind (dec_ideal wn hn orient style maxbp false (snd (enc_syms wn hn orient style fb np data)))
+            (fun r => Ok (get_data wn hn (snd (fst r)))).
 
 Definition list_eqb (a b : list Z) : bool :=
   (length a =? length b)%nat && forallb (fun p => fst p =? snd p) (combine a b).
